@@ -176,5 +176,8 @@ pub fn handle(rest: &[Sx]) -> Sx {
     if op == "wire" {
         return crate::gen_shapes::wire_shape(id, &rest[2..]);
     }
+    if op == "wiredec" {
+        return crate::gen_shapes::wiredec_shape(id, &rest[2..]);
+    }
     crate::gen_shapes::run_shape(id, op, &rest[2..])
 }
